@@ -80,7 +80,10 @@ def request_for(group, c, inputs):
 class Checker:
     def __init__(self, prop, tier, repo, seed):
         self.prop, self.tier, self.repo, self.seed = prop, tier, repo, seed
-        self.timeout = 20000 if tier == 'quick' else 120000
+        # the same per-query budget in both tiers: z3's strategy depends on the timeout it is given (a lemma proved in 0.2 s
+        # with a 20 s budget ran out a 120 s budget), so a longer budget must never replace the short one - the thorough tier
+        # adds the second back end, more cross-check inputs and the mutation run instead (the ladder's 4x step stays)
+        self.timeout = 20000
         self.lines = []
         self.t0 = time.time()
 
